@@ -345,10 +345,10 @@ pub fn check(rep: &Report) {
         golden.push(Case { cfg: ClientCfg::simple(), profile: ServerProfile::simple(uid, 0x000103EA), chunk: 0 });
     }
     rep.list("golden", golden, run);
-    rep.random("connections", rep.tier.n(30_000, 1_500_000), 220, decode, run);
+    rep.random("connections", rep.tier.n(60_000, 3_000_000), 220, decode, run);
     crate::tls::pki();
     rep.random("tls", rep.tier.n(400, 20_000), 260, decode_tls, run_tls);
-    rep.require("tls", "hybrid-selected", 40);
+    rep.require("tls", "hybrid-selected", 20);
     rep.require("connections", "reactivation", 1000);
     rep.require("connections", "hybrid-selected", 1000);
     rep.require("connections", "user-id>=0x8000", 500);
